@@ -672,18 +672,12 @@ struct NullIf;
 
 impl Callable for NullIf {
     fn call(args: Vec<DataType>) -> EvaluationResult<DataType> {
-        if args.len() != 1 || !matches!(args[1], DataType::Bool(_)) {
+        // NULLIF(a, b): NULL when a = b, otherwise a
+        if args.len() != 2 {
             return Err(EvaluationError::InvalidArguments(ScalarFunction::NullIf));
         };
 
-        let condition = args[1]
-            .as_bool()
-            .ok_or(EvaluationError::TypeError(
-                TypeSystemError::UnexpectedDataType(args[1].kind()),
-            ))?
-            .value();
-
-        if condition {
+        if args[0] == args[1] {
             return Ok(DataType::Null);
         }
         Ok(args[0].clone())
